@@ -282,6 +282,11 @@ spif_url_parse(spif_url_t self)
 
     /* Knock out the path and query if they're there. */
     pend = SPIF_CHARPTR(strchr((char *) pstr, '/'));
+    ptmp = SPIF_CHARPTR(strchr((char *) pstr, '?'));
+    if ((pend) && (ptmp) && (ptmp < pend)) {
+        /* The first slash is inside the query; there is no path. */
+        pend = (spif_charptr_t) NULL;
+    }
     if (pend) {
         spif_charptr_t tmp = SPIF_CHARPTR(strchr((char *) pend, '?'));
 
